@@ -57,4 +57,31 @@ LEVEL["C07"] = {
     "design_ref": "DESIGN.md 4/C07", "note": _NOTE, "technique": "Lean 4 proof (case analysis over source x target, decimal print/parse inverse) + correspondence check",
 }
 
+LEVEL["C05"] = {
+    "text": "Lean theorems over the tokenizer instance model: SetReader resets every mutable field so a re-used instance in any earlier state produces the tokens of a fresh one; HasNextToken is idempotent and transparent; every interleaving of has-next queries with next-token calls yields the same token sequence (all four tokenizers). Tied to the code — and extended to parser, calculator and template instances — by exhaustive ordered pairs from adversarial pools, aborted iterations, has-next patterns and random histories compared step by step with fresh instances.",
+    "design_ref": "DESIGN.md 4/C05", "note": _NOTE + " Parser/calculator/template re-use is covered by the differential histories only.", "technique": "Lean 4 proof (state-machine invariants of the token cache, schedule-independence of has-next queries) + correspondence check",
+}
+LEVEL["C19"] = {
+    "text": "PARTIAL. Lean theorems over an explicit-heap evaluator: evaluation only allocates (old cells unchanged on all paths), refines the pure evaluator, is repeatable after arbitrary other evaluations, and an abstract interleaving theorem (threads reading shared-immutable and writing private state get their sequential results under every schedule). Tied to the code by the write-effect inventory regenerated from the source on every run and by sequential purity checks; goroutine schedules are explored under the Go race detector as supporting evidence only.",
+    "design_ref": "DESIGN.md 4/C19", "note": _NOTE + " The Go memory model, the scheduler and the completeness of the race detector are outside the model.", "technique": "Lean 4 proof (frame property of an allocating evaluator, refinement, schedule independence) + write-effect inventory + race-detector runs",
+}
+
+LEVEL["C10"] = {
+    "text": "Lean theorems: escaping is a one-pass map; the section parser is complete for trees of any depth; rendering equals the reference semantics; every tag spelling is lexed to its flat token with blanks anywhere; unopened / unclosed / mismatched sections, mismatched brace counts and unclosed tags are rejected; variable lookup is case-insensitive and independent of the map's iteration order. Tied to the Go engine by generated template trees x variable maps against an independent reference renderer, exhaustive lexeme strings for accept/reject, and comparison of rendering, parse tree and variable list with the compiled model.",
+    "design_ref": "DESIGN.md 4/C10", "note": _NOTE + " The text-to-token step of the mustache tokenizer is covered by correspondence only.", "technique": "Lean 4 proof (refinement of parser+renderer to a reference semantics on template trees, state-machine lemmas per tag spelling) + correspondence check",
+}
+
+LEVEL["C08"] = {
+    "text": "PARTIAL in the host functions. Lean theorems for all 37 functions: never a panic and always a value or one of 8 error codes; case-insensitive first-registration lookup; the exact arity table; Min/Max/Sum as folds, If/Choose selection, exact type-preserving Abs, rounding/sqrt/trunc and the transcendental functions as the host function applied to the converted argument, Contains = sublist, Empty, Array, TimeSpan, Date, DayOfWeek; fixed result types. Tied to the Go functions by names x argument lists x managers with direct oracles against Go's math, the call interval and the folds. The numerical meaning of libm, the clock and the random source are host terms.",
+    "design_ref": "DESIGN.md 4/C08", "note": _NOTE, "technique": "Lean 4 proof (decision logic per function, folds, arity table) + correspondence check with host-term resolution",
+}
+LEVEL["C18"] = {
+    "text": "Lean theorems: the parser reports exactly the identifiers in variable position once each in first-occurrence order (from the parser completeness/soundness proof); automatic variables keep existing entries and end with exactly one entry per case-insensitive name; lookups are case-insensitive with the first added winning; add/locate/remove/clear are the list operations. Tied to the code by generated expressions/templates with identifiers in every position and letter case, resolution cases and random collection operation sequences against list models.",
+    "design_ref": "DESIGN.md 4/C18", "note": _NOTE, "technique": "Lean 4 proof (refinement of the collections to list operations; variable discovery from parser soundness) + correspondence check",
+}
+LEVEL["C20"] = {
+    "text": "Lean theorems over a value model of Variant: host-type table and payload preservation (with the exact range for unsigned values and a kernel-checked counter-witness = known finding D30), growth with nulls and the pointwise specification of indexed writes, reflexivity/symmetry/array characterisation of Equals on float-free values. Copy-isolation is by construction in the value model and is what the differential run checks after every operation against a deep value model (no aliasing).",
+    "design_ref": "DESIGN.md 4/C20", "note": _NOTE + " Aliasing is not expressible in the value model; its absence is checked by execution only.", "technique": "Lean 4 proof (algebraic laws of a value model) + correspondence check detecting aliasing",
+}
+
 NOT_APPLICABLE = {}
